@@ -1,7 +1,8 @@
 (* Model of pgdump/jsonb.go:1-174 (ParseJSONB, parseJSONB, parseJSONBObject, parseJSONBArray, totalLen,
    entryOffLen, endOffset, decodeJEntry, decodeJNumeric) and of the OidJSONB branch of DecodeType
-   (types.go), as they are in the worktree AFTER the fix: commits for D20, D21, D22 and the
-   negative-length guard (kLen >= 0 / length >= 0).
+   (types.go), as they are in the worktree AFTER the fix: commits for D20, D21, D22, the
+   negative-length guard (kLen >= 0 / length >= 0) and the rejection of JEntry arrays whose stored
+   end offsets run backwards (offsets_ok).
 
    Go []byte = gslice; Go []uint32 (the JEntry array) = list Z with a partial index [eidx];
    interface{} results = gval.  DecodeNumeric (property C05) and safeString (utf8 scrubbing, not
@@ -153,6 +154,21 @@ Fixpoint read_entries (n : nat) (data : gslice) (off : Z) : res (list Z) :=
   | S k => e <- u32 data off ;; r <- read_entries k data (off + 4) ;; Ok (e :: r)
   end.
 
+(* jsonb.go parseJSONB, the walk over the JEntry array after it has been read:
+   run := 0; for _, e := range entries { v := int(e & jeOffMask);
+     if e&jeHasOff != 0 { if v < run { return nil, false }; run = v } else { run += v } }
+   [offsets_ok entries run] = false iff the walk hits the return: a stored end offset below the
+   running end offset (kept exactly as endOffset computes it). *)
+Fixpoint offsets_ok (entries : list Z) (run : Z) : bool :=
+  match entries with
+  | [] => true
+  | e :: r =>
+      let v := Z.land e jeOffMask in
+      if negb (Z.land e jeHasOff =? 0)
+      then (if v <? run then false else offsets_ok r v)
+      else offsets_ok r (run + v)
+  end.
+
 (* body of parseJSONB: (value, ok) as option *)
 Definition parse_body (rec : gslice -> jres gval) (data : gslice) : jres (option gval) :=
   if len data <? 4 then JOk None else
@@ -165,6 +181,7 @@ Definition parse_body (rec : gslice -> jres gval) (data : gslice) : jres (option
   if 4 + numEntries * 4 >? len data then JOk None else
   entries <~ lift (read_entries (Z.to_nat numEntries) data 4) ;;
   let dataStart := 4 + numEntries * 4 in
+  if negb (offsets_ok entries 0) then JOk None else
   result <~ (if isObj then parseJSONBObject rec data entries dataStart count
              else parseJSONBArray rec data entries dataStart count) ;;
   if negb (Z.land header jbFScalar =? 0) then
